@@ -297,6 +297,51 @@ func VerifH_C20_Handlers() {
 	}
 }
 
+func c20VarStr(first string, rest ...float64) []interface{} {
+	out := []interface{}{first}
+	for _, r := range rest {
+		out = append(out, r)
+	}
+	return out
+}
+
+// VerifH_C20_HandlersVariadic: the context handler sees the explicit arguments and, when it fires, the
+// context item is counted as an argument by the count check, also for variadic extensions.
+func VerifH_C20_HandlersVariadic() {
+	ctx := hSafeString(2)
+	fireAt := verifChoose(3) // the handler fires when exactly this many explicit arguments are given
+	n := verifChoose(4)      // explicit numeric arguments
+	ext := Extension{Func: c20VarStr, EvalContextHandler: func(argv []reflect.Value) bool { return len(argv) == fireAt }}
+	expr := "c.$ext("
+	want := []interface{}{ctx}
+	for i := 0; i < n; i++ {
+		if i > 0 {
+			expr += ", "
+		}
+		expr += []string{"1", "2", "3"}[i]
+		want = append(want, float64(i+1))
+	}
+	expr += ")"
+	e, err := Compile(expr)
+	if err != nil {
+		verifFail("c20-expression-compiles")
+		return
+	}
+	if err := e.RegisterExts(map[string]Extension{"ext": ext}); err != nil {
+		verifFail("c20-valid-extension-registers")
+		return
+	}
+	got := hEvalExpr(e, map[string]interface{}{"c": ctx})
+	switch {
+	case n == fireAt:
+		verifAssert(got.kind == oValue && reflect.DeepEqual(got.val, want), "variadic-context-handler-prepends-context")
+	case n == 0:
+		verifAssert(got.kind == oArgCount, "variadic-missing-fixed-parameter-count-error")
+	default:
+		verifAssert(got.kind == oArgType, "variadic-number-for-string-type-error")
+	}
+}
+
 // VerifH_C20_Registry: Expr-level registration affects only that Expr; package-level registration
 // affects exactly the expressions compiled afterwards; invalid names and function shapes are rejected;
 // registered variables are readable as $name.
